@@ -150,10 +150,8 @@ func TrueBranches(v ssa.Value) []Branch {
 					out = append(out, Branch{x, 0, 0})
 				}
 			case *ssa.Phi:
-				// short-circuit `p && a`: phi [false, ..., a]
-				if x.Comment != "&&" {
-					continue
-				}
+				// short-circuit `p && a`, or a boolean result variable set to
+				// false on the other paths: phi [false, ..., a]
 				okAnd := true
 				for _, e := range x.Edges {
 					if e == a {
@@ -205,10 +203,19 @@ func TrueBranches(v ssa.Value) []Branch {
 
 // NilBranches lists the Ifs that compare v with nil; Idx is the successor
 // taken when v == nil.
-func NilBranches(v ssa.Value) []Branch {
+func NilBranches(v ssa.Value) []Branch { return nilBranches(v, 0) }
+
+func nilBranches(v ssa.Value, depth int) []Branch {
 	var out []Branch
 	for _, a := range Aliases(v) {
 		for _, r := range Refs(a) {
+			// the value is carried to a join by a result variable (typically
+			// after a helper was inlined: res = f(); ...; if res != nil): the
+			// test of the merged value is the test of v on the paths through v
+			if ph, isPhi := r.(*ssa.Phi); isPhi && depth < 2 {
+				out = append(out, nilBranches(ph, depth+1)...)
+				continue
+			}
 			x, ok := r.(*ssa.BinOp)
 			if !ok || (x.Op != token.EQL && x.Op != token.NEQ) {
 				continue
